@@ -1,12 +1,19 @@
 """C12 — join, lexically_relative and preferred agree with C++17 path operations."""
 import path_common as pc
 
+from vlib import REPO
+
 def run(ck):
     ck.level = "proof"
     ck.cov["rule"] = ("all pairs of strings over {'/', '.', 'a'} up to length 5 (quick) / 6 (thorough) plus seeded random pairs and NULL arguments where the API allows them: "
                       "join text, lexically_relative text or NULL, preferred text are compared with the model; the harness judges join against C++17 operator/ (text), "
                       "relative against lexically_relative (NULL iff empty; same path) of libstdc++; each argument in its own exact-size heap block under ASan")
     ck.assumptions += ["POSIX build"]
+    try:
+        import gen_charclass
+        ck.write_generated("CharClass.lean", gen_charclass.generate(REPO, ck.work))
+    except Exception as e:
+        ck.machinery_error("translator gen_charclass failed: %r" % (e,)); return
     if not ck.build_driver(): return
     if not ck.prove(["ZixModel.Properties.C12", "ZixModel.Properties.C12Buf"]):
         ck.report_proof_failure("theorems about join / lexically_relative no longer build")
